@@ -67,7 +67,8 @@ type hdrEdit struct {
 
 func governedValues() []namedVal {
 	return []namedVal{{"int-16", rc.Int(-16)}, {"int-43", rc.Int(-43)}, {"uint50", rc.Int(50)}, {"neg", rc.Int(-1)}, {"tstr-a/b", rc.Text("a/b")},
-		{"tstr-loc", rc.Text("https://x.example/y")}, {"tstr-plain", rc.Text("plain")}, {"bstr", rc.Bytes([]byte{1})}, {"null", rc.Null}, {"float", rc.Float(1.5)}, {"bool", rc.Bool(true)}}
+		{"tstr-loc", rc.Text("https://x.example/y")}, {"tstr-plain", rc.Text("plain")}, {"bstr", rc.Bytes([]byte{1})}, {"null", rc.Null}, {"float", rc.Float(1.5)}, {"bool", rc.Bool(true)},
+		{"simple", rc.Simple(50)}, {"undefined", rc.Undef}, {"array", rc.Array(rc.Int(50))}, {"map", rc.Map(rc.E(rc.Int(1), rc.Int(50)))}, {"tagged-uint", rc.Tag(1, rc.Int(50))}}
 }
 
 func genEdits(t *rapid.T, spell bool) []hdrEdit {
@@ -351,7 +352,8 @@ type c12VerifyCase struct {
 	Edits   []hdrEdit      `json:"edits,omitempty"`
 	BadSig  bool           `json:"bad_sig,omitempty"`
 	Untag   bool           `json:"untag,omitempty"`
-	Ext     bool           `json:"ext,omitempty"` // signed over non-empty external data (VerifyHashEnvelope supplies none)
+	Ext     bool           `json:"ext,omitempty"`      // signed over non-empty external data (VerifyHashEnvelope supplies none)
+	RevProt bool           `json:"rev_prot,omitempty"` // the peer encoded the protected map in reverse (non-deterministic) key order
 	Entropy rc.Hex         `json:"entropy"`
 }
 
@@ -361,6 +363,9 @@ func c12Envelope(c *c12VerifyCase) []byte {
 	content := []byte{}
 	if len(p.M) > 0 {
 		content = rc.Encode(p, nil)
+		if c.RevProt {
+			content = rc.Encode(p, revChooser{})
+		}
 	}
 	var ext []byte
 	if c.Ext {
@@ -381,27 +386,7 @@ func c12Envelope(c *c12VerifyCase) []byte {
 }
 
 func checkC12Verify(c c12VerifyCase) error {
-	p, u := applyEdits(c.Prot, c.Unprot, c.Edits)
-	content := []byte{}
-	if len(p.M) > 0 {
-		content = rc.Encode(p, nil)
-	}
-	var ext []byte
-	if c.Ext {
-		ext = []byte("external")
-	}
-	sig := refcose.Sign(c.Key.Alg, c.Key, refcose.SigStructure1(content, ext, c.Hash), c.Entropy)
-	if c.BadSig {
-		sig[0] ^= 1
-	}
-	w := []byte{0xd2, 0x84}
-	if c.Untag {
-		w = []byte{0x84}
-	}
-	w = append(w, rc.Encode(rc.Bytes(content), nil)...)
-	w = append(w, rc.Encode(u, nil)...)
-	w = append(w, rc.Encode(rc.Bytes(c.Hash), nil)...)
-	w = append(w, rc.Encode(rc.Bytes(sig), nil)...)
+	w := c12Envelope(&c)
 	ver, err := libVerifier(c.Key, false)
 	if err != nil {
 		return err
@@ -434,6 +419,9 @@ func checkC12Verify(c c12VerifyCase) error {
 		}
 		if !bytes.Equal(msg.Payload, c.Hash) {
 			return finding("returned-payload", "returned payload differs from the envelope's")
+		}
+		if c.RevProt {
+			stats.Class("accepted/protected-not-deterministic")
 		}
 		stats.Class("accepted")
 	} else {
@@ -505,6 +493,7 @@ func genC12VerifyCase(rt *rapid.T) c12VerifyCase {
 		c.BadSig = rapid.IntRange(0, 9).Draw(rt, "badsig") == 0
 		c.Untag = rapid.IntRange(0, 19).Draw(rt, "untag") == 0
 		c.Ext = rapid.IntRange(0, 19).Draw(rt, "ext") == 0
+		c.RevProt = rapid.IntRange(0, 3).Draw(rt, "rev-prot") == 0
 		return c
 	}
 }
